@@ -32,23 +32,19 @@ VARIANTS = {
 def run():
     src = open(FM.repo_root() + "/src/builtins/pcap.rs").read()
     assert OLD in src
-    mod = importlib.import_module("rules.c19")
     out = []
     for name, new in VARIANTS.items():
         tree = mutants.scratch_copy(FM.repo_root())
         try:
             open(tree + "/src/builtins/pcap.rs", "w").write(src.replace(OLD, new, 1))
             try:
-                F = FM.load("default", repo=tree)
+                bad = mutants.run_on("C19", tree)
             except Exception as e:
                 out.append((name, None, "does not build: %s" % str(e)[:120]))
                 continue
         finally:
             shutil.rmtree(tree, ignore_errors=True)
-        R = core.Report("C19")
-        mod.run(F, R, "quick")
-        bad = [o for o in R.obls if not o.ok]
-        out.append((name, len(bad), "; ".join("%s: %s" % (o.rule, o.detail[:60]) for o in bad[:2])))
+        out.append((name, len(bad), "; ".join("%s: %s" % (r_, d_[:60]) for r_, k_, d_ in bad[:2])))
     return out
 
 
